@@ -20,6 +20,7 @@ ParaShapes ==
     \cup { <<x>> : x \in Wrappers }
     \cup { <<R, x>> : x \in Wrappers \cup Refs }
     \cup { <<x, R>> : x \in Wrappers \cup Refs }
+    \cup { << <<w, <<R, b, R>>>> >> : w \in {"a", "ins", "isdt"}, b \in { <<"br">>, <<"tab">> } }   \* break / tab inside a wrapper
     \cup (IF Rich THEN { <<x, y>> : x \in Wrappers, y \in Wrappers } ELSE {})
 
 P1 == <<"p", <<R>>>>
